@@ -13,6 +13,7 @@ property oracle   : systematic cancellation: the flag is raised at the k-th visi
                     as watertight as the uncancelled one and at least half its size; uncancelled renders always return a mesh
 """
 import os
+import re
 import sys
 
 sys.path.insert(0, os.path.dirname(os.path.dirname(os.path.abspath(__file__))))
@@ -180,6 +181,56 @@ def run(replay=None):
                 ck.violation("slow", "a cancelled render took more than 20 s to return", {"command": q.lines[cmd - 1], "detail": out[0]})
             if len(samples) < 4 and f["fired"] == "1":
                 samples.append({"command": q.lines[cmd - 1], "answer": out[0]})
+    # ---- pass 3: the same cancellations under AddressSanitizer, with the cancelling worker held for 30 ms in the
+    # middle of its iteration so that the other workers leave (and release what they own) first
+    import cxxbuild
+    ASAN_FLAGS = ("-std=gnu++17 -O1 -g -fsanitize=address -fno-omit-frame-pointer -DNDEBUG -DLIBFIVE_VERIF -fPIC -w "
+                  "-DGIT_TAG='\"verif\"' -DGIT_REV='\"verif\"' -DGIT_BRANCH='\"verif\"'")
+    ok_a, log_a, _ = cxxbuild.build_variant("asan", ASAN_FLAGS, ["bin/expr"])
+    stats["asan_injections"] = 0
+    if not ok_a:
+        ck.violation("build", "harness does not build against /repo working tree (AddressSanitizer variant)",
+                     {"log": log_a[-3000:]}, no_input=True)
+    else:
+        exe_a = os.path.join(common.VERIF, ".build", "cxx-asan", "bin", "expr")
+        aprogs = []
+        for p in shapes[:(6 if quick else 60)]:
+            q = exprlib.Prog(p.cid + "a")
+            q.lines = [l for l in p.lines if not l.startswith("cancel ")]
+            q.ncmd = len(q.lines)
+            for alg, workers, mf, _ in p.cfg:
+                b = base.get((p.cid, alg, workers, mf))
+                if not b or workers < 2:
+                    continue
+                for si in (0, 1, 2, 3, 4):
+                    c = b[3][si]
+                    if c <= 0:
+                        continue
+                    for k in sorted({1, max(1, c // 3), rng.randint(1, c)}):
+                        q.emit(f"cancel {p.root} {alg} {workers} {f2h(mf)} {box} {si} {k} 30")
+                        stats["asan_injections"] += 1
+            aprogs.append(q)
+        env = dict(os.environ, ASAN_OPTIONS="detect_leaks=0:halt_on_error=1:exitcode=99:allocator_may_return_null=1:alloc_dealloc_mismatch=0")
+        import subprocess
+        from concurrent.futures import ThreadPoolExecutor
+
+        def one(q):
+            try:
+                r = subprocess.run([exe_a], input=q.text(), stdout=subprocess.PIPE, stderr=subprocess.PIPE, text=True,
+                                   errors="replace", timeout=1800, env=env)
+                return q, r.returncode, r.stderr
+            except subprocess.TimeoutExpired:
+                return q, -1, "TIMEOUT"
+        with ThreadPoolExecutor(max_workers=6) as ex:
+            for q, rc, err in ex.map(one, aprogs):
+                if "ERROR: AddressSanitizer" in err:
+                    kind = (re.search(r"ERROR: AddressSanitizer: (\S+)", err) or [None, "?"])[1]
+                    ck.violation("asan:" + kind, "AddressSanitizer reports a memory error in a cancelled multi-worker render "
+                                 "(the cancelling worker was held for 30 ms in the middle of its iteration)",
+                                 {"program": q.text()[:3000], "report": err[err.find("ERROR: AddressSanitizer"):][:3000]})
+                elif rc != 0:
+                    ck.violation("crash", f"a cancelled render crashed or hung under AddressSanitizer (rc={rc})",
+                                 {"program": q.text()[:3000], "stderr": err[-2000:]})
     if not proof["ok"]:
         ck.violation("proof", "Properties_C11.v no longer checks", {"theorem_or_file": proof["file"],
                      "log": proof["log"][-3000:]}, no_input=True)
